@@ -97,6 +97,11 @@ def dependent_decls():
     out.append([A, leaf, P(ir(0, 2), ["ann", ["list", ["base", "bool"]], ["dependent", [0], ["listsize_upto"]]])])
     # a nested production with a field of the same number: the dependent field must see ITS node's sibling
     out.append([A, leaf, P(ir(0, 1), S0, dep([0], ["intrange_lo", 50])), P(ir(40, 45), dep([0], ["intrange_lo", 50]))])
+    # ... and the same with the nested production reached directly (concrete class / union member / sized list), not through an abstract type
+    inner = {"parent": None, "abs": None, "fields": [ir(40, 45)], "weight": None}
+    out.append([A, leaf, P(ir(0, 1), ["sym", 3], dep([0], ["intrange_hi", -3])), inner])
+    out.append([A, leaf, P(ir(0, 1), ["union", [["sym", 3], ["base", "bool"]]], dep([0], ["intrange_hi", -3])), inner])
+    out.append([A, leaf, P(ir(0, 1), ["ann", ["list", ["sym", 3]], ["listsize", 1, 2, True]], dep([0], ["intrange_hi", -3])), inner])
     return [{"classes": cl, "considered": list(range(len(cl))), "start": 0, "xdepth": False} for cl in out]
 
 
